@@ -1,5 +1,6 @@
 import Rare.Base.Proto
 import Rare.Model.C07NumF64
+import Rare.Model.C07NumErr
 /-!
 Driver ops of C07 for the numerical aggregator over the software binary64 model
 (`Rare/Model/C07NumF64.lean`), see `harness/corr/c07numf64.go`:
@@ -7,6 +8,11 @@ Driver ops of C07 for the numerical aggregator over the software binary64 model
   agg numf  <keep> <rev> <hist>  <qs>    Sample(string) per element: ParseFloat by `F64.parseFloat`
   agg numfv <keep> <rev> <bits>  <ps>    Samplef(float64) per element: bit patterns (16 hex digits, `;`-joined),
                                          quantile arguments as bit patterns (`,`-joined)
+  agg numerr <e> <bits>                  the PROVED tolerances checked on concrete data: samples of magnitude ≤ 2^e;
+                                         answer `ok n=<count> mean=<0|1> var=<0|1>`: is Mean() / Variance() within
+                                         `meanErrBound` / `varianceErrBound` of the exact rational statistics
+                                         (`num_f64_error_check_true`: always 1 1 inside the class; the Go side
+                                         checks the REAL aggregator with math/big)
 
 After every sample: count, parse errors, and the exact bit patterns of Mean, Variance, StdDev, Min, Max
 (`nan` for any NaN; the sign of a zero IS compared).  At the end Median, Mode and the quantiles – here both
@@ -89,6 +95,15 @@ def handle : List String → Option String
     match (if bs = "." then some [] else (bs.splitOn ";").mapM parseHex64),
           (if ps = "." then some [] else (ps.splitOn ",").mapM parseHex64) with
     | some vals, some ps => run (keep == "1") (rev == "1") (vals.map some) ps
+    | _, _ => "bad-args"
+  | ["agg", "numerr", e, bs] => some <|
+    match e.toNat?, (if bs = "." then some [] else (bs.splitOn ";").mapM parseHex64) with
+    | some e, some vals =>
+      if !inErrClass e vals then "unmodelled outside-the-class"
+      else
+        let (a, b, c) := numErrCheck e vals
+        if !b then "model-m2-bound-violated"
+        else s!"ok n={vals.length} mean={if a then 1 else 0} var={if c then 1 else 0}"
     | _, _ => "bad-args"
   | _ => none
 
